@@ -47,7 +47,7 @@ from .core import Relation, err_kind
 PROP = "C02"
 CLAIMED = True
 COQ_MODULES = ["C02_Check", "C02_Tiling", "C02_Generations", "C02_Proofs", "C02_Cm", "C02_Coords", "C02_SeqCheck",
-               "C02_Reader", "C02_ReaderCheck", "C02_ReaderRun", "C02_Draws", "C02_DrawsCheck", "C02_CmRun"]
+               "C02_Reader", "C02_ReaderCheck", "C02_ReaderRun", "C02_Draws", "C02_DrawsCheck", "C02_CmRun", "C20_Model"]
 PROPERTY_MODULE = "C02_Property"
 ALLOWED_AXIOMS = []
 
@@ -69,11 +69,31 @@ TRANSLATION = {
                 "until_append_to": "hap_samples", "result": "segments",
                 "params": ["chroms", "end_coords", "p_pop", "haps", "homolog", "true_coords", "prev_gen_samples",
                            "segments"]}),
+            # the tail of _prepare_coords, from `if region:` to `end_coords = [...]`: the region loop over coords[0], the
+            # sentinel store chrom_coord[-1].bp_map_pos = np.iinfo(np.int32).max (a store through the loop variable into
+            # the object held by `coords`) and the list of end markers; `coords` and `region` are the slice's free
+            # variables, the result is end_coords and the final value of `coords`.  String keys by code points here.
+            ("haptools/sim_genotype.py", "_prepare_coords", {
+                "name": "_prepare_coords_tail", "top": True, "start": {"if_name": "region"},
+                "stop": {"through_assign": "end_coords"}, "params": ["coords", "region"], "result": "end_coords",
+                "text": True}),
+            # the writing loop of write_breakpoints: the body of `with open(breakpt_file, 'w') as output:` (everything after
+            # the numpy sub-sampling); output.write(e) appends the string e to $out.  String literals by code points and
+            # f-strings interpreted in this slice only; str() of the cM float is the Section variable ext_str (Section
+            # GenStr starts here: the text of the functions above is unchanged, TV_C01*.v compile against it as before)
+            ("haptools/sim_genotype.py", "write_breakpoints", {
+                "name": "write_breakpoints_lines", "top": True, "start": {"with_open": True}, "stop": {"before_return": True},
+                "write": {"method": "write", "stream": "$out"}, "params": ["pop_dict", "breakpoints"],
+                "text": True, "ext_str": True}),
         ],
     },
-    "models": ["TVM_C01"],   # definitions only: evaluation of the translated code (tv_kernel relation)
-    "proofs": ["TV_C01", "TV_C01_Child"],    # translation-validation theorems
+    # definitions only: evaluation of the translated code (tv_kernel, tv_bpwrite, tv_coords)
+    "models": ["TVM_C01", "TVM_C02W", "TVM_C02P"],
+    # translation-validation theorems (TV_DecText: MiniPy's str(int) = C02_Reader.dec)
+    "proofs": ["TV_C01", "TV_C01_Child", "TV_DecText", "TV_C02W", "TV_C02P"],
 }
+# the integer the expression np.iinfo(np.int32).max is read as (checked against the running numpy by tv_coords)
+TRANSLATION["spec"]["ext_dotted_consts"] = {"np.iinfo(np.int32).max": 2147483647}
 RULE = (
     "configurations: 1-4 chromosomes of 1..22,X, 2-9 markers with zero/tiny/huge cM gaps, 2-3 source populations "
     "incl. zero fractions and pulses, 1-4 model lines, optional --region, popsize 2..30, 1-3 samples; about 40% carry "
@@ -945,7 +965,185 @@ class Seq(Relation):
         return "seq tiling/labels/framing of a run of the history, or its markers differ from the map files'"
 
 
-RELATIONS = [BpFile(), Gen(), Seq(), BpText(), Draws()]
+class TVBpWrite(BpFile):
+    """The configurations of the bpfile relation, with the writing loop of write_breakpoints evaluated from the MiniPy
+    syntax regenerated from the current source on the haplotypes the recorded np.random.choice draw selects: agree =
+    the interpreted loop writes, line by line and character by character, the .bp file the implementation wrote
+    (population names from pop_dict, ints printed by MiniPy.dec_text, the text of a cM float as Python prints it).
+    Validates the translator and the interpreter (enumerate, // and %, the f-strings, the dict look-up, the getters)
+    against the real code; holds is checked by the bpfile relation."""
+    name = "tv_bpwrite"
+    coq_lib = "HVG"
+    coq_module = "TVM_C02W"
+    coq_check = "check_tv_bpwrite"
+    coq_case_type = "wcase"
+    coq_model = "tv_model_bpwrite"
+    coq_imports = ["Tracts", "C01_Model", "C02_Model"]
+    budget = {"quick": 30, "thorough": 600}
+    max_cases_per_shard = 20
+
+    def preamble(self):
+        return "Open Scope Z_scope."
+
+    def generate(self, rng, n, tier):
+        out = []
+        for _ in range(n):
+            cfg = c01.make_config(rng, wide=bool(rng.random() < 0.4))
+            ns = cfg["nsamples"]
+            cfg["popsize"] = int(max(cfg["popsize"], 2 * ns) if rng.random() < 0.5 else 10 * ns)
+            out.append(cfg)
+        # sample numbers / haplotype indices past 9|10, 99|100, 127|128 (255|256 in thorough: ~25 KB of lines each)
+        out.append(boundary_config(rng, "popsize-small"))
+        if tier != "quick":
+            out += [boundary_config(rng, "popsize-big", j) for j in range(len(POPSIZE_BIG))]
+        return out
+
+    def run_impl(self, cfg):
+        d = tempfile.mkdtemp(prefix="hv_c02_")
+        try:
+            c01.write_config(cfg, d)
+            return run_once(d, cfg, "model.dat", "out", text=True)
+        finally:
+            shutil.rmtree(d, ignore_errors=True)
+
+    def encode(self, cfg, obs):
+        if "rejected" in obs:
+            return []
+        if "rows" not in obs:
+            e = obs["failed"]["err"] if "failed" in obs else (97 if "unobserved" in obs else obs.get("kind", 99))
+            return f"(mkw [] [] [] [] (Err {L.z(e)}))"
+        vals = sorted({s[3] for h in obs["final"] for s in h})
+        rank = {v: i for i, v in enumerate(vals)}
+        seg = lambda s: c01.seg_term([s[0], s[1], s[2], rank[s[3]]])
+        pops = ["Admixed"] + cfg["pops"]
+        return (f"(mkw {L.lst(obs['final'], lambda h: L.lst(h, seg))} {L.zl(obs['idx'])} {L.lst(pops, cps)} "
+                f"{L.lst(vals, lambda v: cps(format(v, '')))} (Ok {L.lst(obs['lines'], lambda ln: L.lst(ln, cps))}))")
+
+    def nontrivial(self, cfg, obs):
+        return "rows" in obs and any(len(r[2]) > 1 for r in obs["rows"])
+
+    def signature(self, cfg, obs):
+        if "failed" in obs:
+            return f"tv_bpwrite simulate_gt/write_breakpoints raised {obs['failed'].get('cls')}"
+        return "tv_bpwrite: the translated writing loop and write_breakpoints disagree on the lines of the .bp file"
+
+
+class TVCoords(Relation):
+    """_prepare_coords on generated map directories (1-4 chromosomes, optional region before / inside / beyond the map,
+    now and then an empty map file), with its tail (region loop, sentinel store, end markers) evaluated from the MiniPy
+    syntax regenerated from the current source on the markers of the files: agree = same marker lists (bp, cM) and end
+    markers, or the same error kind (UnboundLocalError / IndexError for an empty file).  Also checks that
+    np.iinfo(np.int32).max is the integer the translation reads it as.  holds is checked by bpfile / seq."""
+    name = "tv_coords"
+    coq_lib = "HVG"
+    coq_module = "TVM_C02P"
+    coq_check = "check_tv_coords"
+    coq_case_type = "pcase"
+    coq_model = "tv_model_coords"
+    coq_imports = ["Tracts", "C01_Model", "C02_Model"]
+    budget = {"quick": 60, "thorough": 1500}
+    max_cases_per_shard = 60
+    anchors = [("haptools/sim_genotype.py", "_prepare_coords")]
+
+    def preamble(self):
+        return "Open Scope Z_scope."
+
+    def generate(self, rng, n, tier):
+        out = []
+        for _ in range(n):
+            cfg = c01.make_config(rng, wide=bool(rng.random() < 0.3))
+            c = {"chroms": cfg["chroms"], "maps": {k: [[r[0], r[1], r[2]] for r in v] for k, v in cfg["maps"].items()},
+                 "region": cfg["region"]}
+            first = c["chroms"][0]
+            bps = [r[2] for r in c["maps"][first]]
+            r = rng.random()
+            if r < 0.25 and bps:
+                # a region relative to the first chromosome's markers: before / inside / at a marker / beyond the map
+                lo = int(rng.choice([0, bps[0], bps[0] + 1, bps[len(bps) // 2], bps[-1], bps[-1] + 5]))
+                hi = int(rng.choice([bps[0], bps[len(bps) // 2], bps[-1] - 1, bps[-1], bps[-1] + 9, lo]))
+                c["chroms"], c["region"] = [first], {"chr": first, "start": min(lo, hi), "end": max(lo, hi)}
+                c["maps"] = {first: c["maps"][first]}
+            elif r < 0.32:
+                k = c["chroms"][int(rng.integers(0, len(c["chroms"])))]
+                c["maps"][k] = []            # an empty map file
+            if c["region"] is not None:
+                c["chroms"] = [c["region"]["chr"]] if c["region"]["chr"] in c["maps"] else c["chroms"][:1]
+                c["maps"] = {k: v for k, v in c["maps"].items() if k in c["chroms"]}
+            out.append(c)
+        return out
+
+    def run_impl(self, cfg):
+        import haptools.sim_genotype as sg
+
+        d = tempfile.mkdtemp(prefix="hv_c02_")
+        try:
+            for c, rows in cfg["maps"].items():
+                with open(os.path.join(d, f"g.chr{c}.map"), "w") as f:
+                    for r in rows:
+                        f.write(f"{r[0]}\t.\t{r[1]:.6f}\t{r[2]}\n")
+            try:
+                coords, _np, _mx, ends = sg._prepare_coords(d, cfg["chroms"], cfg["region"])
+            except Exception as e:  # noqa
+                return {"err": err_kind(e), "cls": type(e).__name__, "msg": str(e)[:160]}
+            mk = lambda m: [int(m.get_bp_pos()), float(m.get_map_pos())]
+            return {"ok": {"coords": [[mk(m) for m in row] for row in coords], "ends": [mk(m) for m in ends]}}
+        finally:
+            shutil.rmtree(d, ignore_errors=True)
+
+    @staticmethod
+    def _order(cfg):
+        key = lambda c: 23 if c == "X" else int(c)
+        return sorted(cfg["chroms"], key=key)
+
+    def encode(self, cfg, obs):
+        files = [[[int(r[2]), float(f"{r[1]:.6f}")] for r in cfg["maps"].get(c, [])] for c in self._order(cfg)]
+        vals = sorted({m[1] for row in files for m in row}
+                      | ({m[1] for row in obs["ok"]["coords"] for m in row} | {m[1] for m in obs["ok"]["ends"]} if "ok" in obs else set()))
+        rank = {v: i for i, v in enumerate(vals)}
+        pr = lambda m: f"({L.z(m[0])}, {L.z(rank[m[1]])})"
+        rg = cfg["region"]
+        rgt = "None" if rg is None else f"(Some ({L.z(rg['start'])}, {L.z(rg['end'])}))"
+        if "ok" in obs:
+            ot = f"(Ok ({L.lst(obs['ok']['coords'], lambda row: L.lst(row, pr))}, {L.lst(obs['ok']['ends'], pr)}))"
+        else:
+            ot = f"(Err {L.z(obs.get('err', obs.get('kind', 99)))})"
+        return f"(mkpc {L.lst(files, lambda row: L.lst(row, pr))} {rgt} {ot})"
+
+    def nontrivial(self, cfg, obs):
+        return cfg["region"] is not None or "err" in obs
+
+    def classes(self, cfg, obs):
+        out = [f"chroms={len(cfg['chroms'])}", f"region={'y' if cfg['region'] else 'n'}"]
+        if any(not v for v in cfg["maps"].values()):
+            out.append("empty-map-file")
+        if "err" in obs:
+            out.append(f"err{obs['err']}")
+        elif cfg["region"]:
+            n0 = len(cfg["maps"][self._order(cfg)[0]])
+            k = len(obs["ok"]["coords"][0])
+            out.append("region-keeps-all" if k == n0 else "region-keeps-one" if k == 1 else "region-keeps-some")
+        return out
+
+    def shrink(self, cfg):
+        for c in list(cfg["maps"]):
+            rows = cfg["maps"][c]
+            for j in range(len(rows)):
+                yield dict(cfg, maps=dict(cfg["maps"], **{c: rows[:j] + rows[j + 1:]}))
+        if len(cfg["chroms"]) > 1 and cfg["region"] is None:
+            for c in cfg["chroms"]:
+                keep = [x for x in cfg["chroms"] if x != c]
+                yield dict(cfg, chroms=keep, maps={k: v for k, v in cfg["maps"].items() if k in keep})
+
+    def mutate(self, cfg, rng):
+        return []
+
+    def signature(self, cfg, obs):
+        if "err" in obs:
+            return f"tv_coords _prepare_coords raised {obs.get('cls')}"
+        return "tv_coords: the translated tail of _prepare_coords and _prepare_coords disagree on coords / end_coords"
+
+
+RELATIONS = [BpFile(), Gen(), Seq(), BpText(), Draws(), TVBpWrite(), TVCoords()]
 
 LEVEL_TEXT = (
     "Coq theorems, for all strictly increasing chromosome lists, all ordered event lists, all draw streams and any number "
